@@ -1,3 +1,6 @@
 pub mod engine;
 pub mod cq;
 pub mod c01;
+pub mod c15;
+pub mod prog;
+pub mod c02;
